@@ -634,8 +634,10 @@ class PtyHarness(Harness):
     def _termios(self):
         import termios
 
+        # read through the master side: same tty, and it stays readable even if the code under test
+        # loses the slave descriptor
         try:
-            a = termios.tcgetattr(self.slave)
+            a = termios.tcgetattr(self.master)
         except Exception as e:  # noqa: BLE001 - recorded, judged by the parent
             return "tcgetattr failed: %r" % (e,)
         return [a[0], a[1], a[2], a[3], a[4], a[5], [c.hex() if isinstance(c, bytes) else c for c in a[6]]]
@@ -679,6 +681,11 @@ class PtyHarness(Harness):
         self.drain_master()
         self.result["started_after"] = bool(self.screen.started)
         self.result["termios_after"] = self._termios()
+        try:
+            os.fstat(self.slave)
+            self.result["input_fd_open_after"] = True
+        except OSError:
+            self.result["input_fd_open_after"] = False
         after = [signal.getsignal(getattr(signal, s)) for s in SIGS]
         self.result["sig_after"] = [_sig_repr(h) for h in after]
         self.result["sig_same"] = [a is b or a == b for a, b in zip(after, self._sig_before_objs)]
